@@ -177,7 +177,10 @@ def replay(lines: list[str], origin_is_root: bool, d1: str, d2: str, f: str, res
         )
         e2 = dict(os.environ)
         e2.pop("FLOWMARK_VERIF", None)
-        r2 = subprocess.run([sys.executable, "-c", code, str(root)], capture_output=True, text=True, env=e2, cwd=str(root))
+        try:
+            r2 = subprocess.run([sys.executable, "-c", code, str(root)], capture_output=True, text=True, env=e2, cwd=str(root), timeout=60)
+        except subprocess.TimeoutExpired:
+            return {"git_ignored": git_ignored, "listed": None, "hang": True, "stderr": "FileResolver.resolve did not return within 60 s"}
         listed = str(root / d1 / d2 / f) in r2.stdout.split("\n")
         return {"git_ignored": git_ignored, "listed": listed, "stderr": r2.stderr[-300:]}
     finally:
@@ -195,10 +198,19 @@ def main() -> int:
     t0 = time.time()
     harness: list[str] = []
     findings: list[Any] = []
+    import signal
+
+    def _alarm(*_a: Any) -> None:
+        raise TimeoutError("the traversal of the marker tree did not finish within 60 s")
+
+    signal.signal(signal.SIGALRM, _alarm)
+    signal.alarm(60)
     try:
         templates = trace_templates(True)
         templates_off = trace_templates(False)
+        signal.alarm(0)
     except Exception as e:  # noqa: BLE001
+        signal.alarm(0)
         harness.append(f"trace of _walk_directory failed: {type(e).__name__}: {e}")
         templates, templates_off = [], []
     if not templates:
@@ -253,6 +265,10 @@ def main() -> int:
     for form, lines, at_root, a, b, c, impl_says in jobs:
         rr = replay(lines, at_root, a, b, c)
         checked += 1
+        if rr.get("hang"):
+            findings.append(C.Finding("C18", "traversal-hangs", f"FileResolver.resolve does not return on a tree with .gitignore {lines} at {'root' if at_root else a} and file {a}/{b}/{c}",
+                                      {"op": "c18", "lines": lines, "origin_root": at_root, "d1": a, "d2": b, "f": c, "respect": True}))
+            break
         if form == "refcheck":
             if not rr["git_ignored"]:
                 ref_errors += 1
@@ -291,7 +307,9 @@ def main() -> int:
                                   {"op": "c18", "lines": lines, "origin_root": at_root, "d1": a, "d2": b, "f": c, "respect": True}))
     # ---- --no-respect-gitignore end to end
     rr = replay(["*.md"], True, "a", "b", "a.md", respect=False)
-    if not rr["listed"]:
+    if rr.get("hang"):
+        pass
+    elif not rr["listed"]:
         findings.append(C.Finding("C18", "no-respect-gitignore/still-hidden", "with respect_gitignore=False a file ignored by .gitignore is still not listed",
                                   {"op": "c18", "lines": ["*.md"], "origin_root": True, "d1": "a", "d2": "b", "f": "a.md", "respect": False}))
     ev.add(
@@ -314,6 +332,8 @@ def replay_file(doc: dict[str, Any]) -> int:
     r = doc["replay"]
     rr = replay(r["lines"], r["origin_root"], r["d1"], r["d2"], r["f"], r.get("respect", True))
     print(rr)
+    if rr.get("hang"):
+        return 1
     bad = rr["listed"] == rr["git_ignored"] if r.get("respect", True) else not rr["listed"]
     return 1 if bad else 0
 
